@@ -6,6 +6,24 @@ import os
 import sys
 
 
+def prime_process_state():
+    """Build up the process-global state a long-running program would have before the
+    checks start: every record type is first looked up in the *other* classes (CH, HS, an
+    unknown class) and only then in IN/ANY, so that lookups memoised under the wrong class
+    (dns.rdata.get_rdata_class keeps a process-wide cache) show up in every check instead of
+    depending on which class a process happens to see first."""
+    import dns.rdata
+    import dns.rdataclass
+    import dns.rdatatype
+    types = [t for t in dns.rdatatype.RdataType]
+    for cls in (dns.rdataclass.CH, dns.rdataclass.HS, dns.rdataclass.RdataClass.make(17)):
+        for t in types:
+            try:
+                dns.rdata.get_rdata_class(cls, t)
+            except Exception:
+                pass
+
+
 def main():
     ap = argparse.ArgumentParser()
     ap.add_argument("prop")
@@ -23,6 +41,7 @@ def main():
     assert os.path.dirname(os.path.dirname(os.path.abspath(dns.__file__))) == \
         os.path.abspath(core.REPO), dns.__file__
     sys.setrecursionlimit(3000)
+    prime_process_state()
     seed = int(os.environ.get("VERIF_SEED", "0") or 0)
     mod = importlib.import_module("mc.checks." + args.prop.lower())
     if args.replay:
